@@ -67,12 +67,12 @@ LPDrift(c, a, s) ==
 
 \* ---- layer 3 bound to the code: the phase-1 model predicts every edge (end points, reversed flag) exactly
 CB == INSTANCE CycleBreakOps
-CBApplies(c, a, s) == c.p1 \in {"greedy", "dfs"} /\ Len(a.nodes) <= CBMaxNodes /\ Len(a.edges) <= CBMaxEdges /\ Len(a.edges) >= 1
+CBApplies(c, a, s) == c.p1 \in {"greedy", "dfs", "dfsrand", "randdfs"} /\ Len(a.nodes) <= CBMaxNodes /\ Len(a.edges) <= CBMaxEdges /\ Len(a.edges) >= 1
                       /\ Len(s.edges) = Len(a.edges)
 CBPredicted(c, a) ==
     LET k == Len(a.nodes)
         prs == [i \in DOMAIN a.edges |-> <<IndexOf(a, a.edges[i][1]), IndexOf(a, a.edges[i][2])>>]
-    IN CB!BreakCycles(k, CB!MkGraph(k, prs), c.p1)
+    IN CB!BreakCycles(k, CB!MkGraph(k, prs), IF c.p1 = "greedy" THEN "greedy" ELSE "dfs")    \* the greedy node-choice option does not concern the depth-first breaker
 CBDrift(c, a, s) ==
     IF ~CBApplies(c, a, s) THEN {}
     ELSE LET R == CBPredicted(c, a) IN
